@@ -78,6 +78,16 @@ theorem aggViaStats_eq_aggRows_partial {d : SeriesData} (hw : d.WF) {lo hi : Int
 theorem aggViaStats_eq_aggRows_noKeyTwice {d : SeriesData} (hw : d.WF) (hk : NoKeyTwice d) (lo hi : Int) :
     aggViaStats lo hi d = aggRows lo hi d := aggViaStats_eq_aggRows_partial hw (hk.restrict lo hi)
 
+/-- what the un-hinted path computes for *any* layout: the record of the rows of all containers
+in the range taken together, timestamps held by several containers counted once per container —
+the documented trade-off, stated exactly. -/
+theorem aggViaStats_is_concat {d : SeriesData} (hw : d.WF) (lo hi : Int) :
+    aggViaStats lo hi d = mergeOf d.ty (((containers d).map (fun c => c.filter (inRange lo hi))).flatten) ∧
+    (aggViaStats lo hi d).count =
+      (points (((containers d).map (fun c => c.filter (inRange lo hi))).flatten)).length := by
+  refine ⟨aggViaStats_eq_mergeOf hw lo hi, ?_⟩
+  rw [aggViaStats_eq_mergeOf hw lo hi, mergeOf_count]
+
 /-- the un-guarded statement … -/
 def aggViaStats_eq_aggRows_full : Prop :=
   ∀ d : SeriesData, d.WF → ∀ lo hi : Int, aggViaStats lo hi d = aggRows lo hi d
